@@ -335,6 +335,11 @@ func (its *PushPullHandler) pushOperations() errors.OrdaError {
 }
 
 func (its *PushPullHandler) processSubscribeOrCreate(code pushPullCase) errors.OrdaError {
+	if code == caseUsedDUID && (its.gotOption.HasSubscribeBit() || its.gotOption.HasCreateBit()) {
+		// no datatype under the key, but the id belongs to a datatype stored under another key:
+		// creating would take that document over, anything else would work on the wrong datatype
+		return errors.PushPullDuplicateKey.New(its.ctx.L(), fmt.Sprintf("%s: datatype id '%s' is already in use", its.Key, its.DUID))
+	}
 	if its.gotOption.HasSubscribeBit() && its.gotOption.HasCreateBit() {
 		switch code {
 		case caseMatchNothing:
@@ -452,6 +457,11 @@ func (its *PushPullHandler) evaluatePushPullCase() (pushPullCase, errors.OrdaErr
 			return caseError, errors.PushPullAbortionOfClient.New(its.ctx.L(), msg)
 		}
 		return caseUsedDUID, nil
+	}
+	if its.gotOption.HasCreateBit() && !its.gotOption.HasSubscribeBit() && its.datatypeDoc.DUID != its.DUID {
+		// the key is taken by a datatype with another id: whatever the requester's relation to it,
+		// this is not a repetition of its own create request
+		return caseAllMatchedNotSubscribed, nil
 	}
 	if its.datatypeDoc.Type == its.gotPushPullPack.Type.String() {
 		if its.datatypeDoc.Visible {
